@@ -52,6 +52,24 @@ class Minimiser(object):
         best, best_res = self.ddmin(best, best_res, sig, key)
         if best.get("pre_ops"):
             best, best_res = self.ddmin(best, best_res, sig, "pre_ops", allow_empty=True)
+        if best.get("others"):
+            cand = dict(best, others=[], schedule=None)
+            r = self.fails(cand, sig)
+            if r:
+                best, best_res = cand, r
+            else:
+                # shrink the other tenant's operation list
+                o = best["others"][0]
+                sub = {"ops": list(o["ops"])}
+                n = 2
+                items = list(o["ops"])
+                for k in range(len(items) - 1, -1, -1):
+                    trial = items[:k] + items[k + 1:]
+                    cand = dict(best, others=[dict(o, ops=trial)] + best["others"][1:])
+                    r = self.fails(cand, sig)
+                    if r:
+                        items, best, best_res = trial, cand, r
+                        o = best["others"][0]
         # 3. config options
         for k in sorted(best.get("config", {})):
             cfg = dict(best["config"])
